@@ -29,7 +29,8 @@ ANCHORS = [("leuvenmapmatching/matcher/base.py", "BaseMatcher._match_states"),
 TRANSFORMS = ["rename_str", "rename_reverse", "rename_nested", "reorder", "swap_axes", "scale-10", "scale-3", "scale4", "scale12", "scale20", "translate"]
 FLOORS = {f"transform:{t}": 250 for t in TRANSFORMS if t != "translate"}
 FLOORS.update({"transform:translate": 80, "base_cases": 400, "base_cases_nontrivial": 250, "paths_image_identical": 2500})
-ASSUMPTIONS = ["renaming/reordering/swap/scaling: index equal, best probability equal to 1e-9 relative, path = image of the base path unless both "
+ASSUMPTIONS = ["NewsonKrummMatcher (only in the shaped diamond / mirror classes) scores emissions with a probability density, which changes by log(s) per observation under scaling by construction: the scale transforms are not applied to that family",
+               "renaming/reordering/swap/scaling: index equal, best probability equal to 1e-9 relative, path = image of the base path unless both "
                "totals are equal to 1e-12 (exact tie)",
                "translation (only without width, dyadic coordinates): probability to 1e-7 relative; skipped as borderline when any (state, "
                "observation) distance is within 1e-6 relative of max_dist / max_dist_init or a normalised probability within 1e-6 of "
@@ -37,6 +38,15 @@ ASSUMPTIONS = ["renaming/reordering/swap/scaling: index equal, best probability 
 
 
 def gen_case(rng, i, tier):
+    if i % 8 in (3, 6):
+        # shaped classes shared with C10: two alternative roads that rejoin under a sparse trace (a state reached from two
+        # predecessors at the same non-emitting depth, no ties), and the mirror-symmetric merge with a loop (exact ties)
+        from .C10 import gen_diamond_case, gen_mirror_case
+        case = gen_diamond_case(rng) if i % 8 == 3 else gen_mirror_case(rng)
+        case["dyadic"] = False
+        case["tseed"] = rng.randint(0, 10 ** 9)
+        case["shaped"] = "diamond" if i % 8 == 3 else "mirror"
+        return case
     dyadic = rng.random() < 0.5
     kinds = ("grid", "chain_dyadic") if dyadic else ("random", "chain", "grid")
     case = mcase.gen_mcase(rng, width="maybe", tighten_p=0.15, sparse_p=0.0 if dyadic else 0.3, max_obs=8, kinds=kinds,
@@ -82,7 +92,7 @@ def apply(case, t, rng):
         s = 2.0 ** int(t[5:])
         nodes = [[l, [p[0] * s, p[1] * s]] for l, p in nodes]
         tr = [[p[0] * s, p[1] * s] for p in tr]
-        for k in ("obs_noise", "obs_noise_ne", "dist_noise", "max_dist", "max_dist_init"):
+        for k in ("obs_noise", "obs_noise_ne", "dist_noise", "dist_noise_ne", "max_dist", "max_dist_init"):
             if cfg.get(k) is not None:
                 cfg[k] = cfg[k] * s
     elif t == "translate":
@@ -151,7 +161,11 @@ def check_case(ctx, case):
         ctx.nontriv(base)
     rng = random.Random(case["tseed"])
     fam = case["cfg"]["family"]
+    if case.get("shaped"):
+        ctx.count(f"shaped_class:{case['shaped']}")
     for t in TRANSFORMS:
+        if fam == "newsonkrumm" and t.startswith("scale"):
+            continue   # emissions are scored with a probability DENSITY (norm.logpdf): changes by log(s) per observation by construction
         src = case
         if t == "translate":
             if not case["dyadic"]:
@@ -223,8 +237,23 @@ def replay_case(ctx, wit):
     t = wit["transform"]
     rel = 1e-7 if t == "translate" else 1e-9
     if c0["empty"] != c1["empty"] or c0["idx"] != c1["idx"] or (not c0["empty"] and not oracles.close(c0["best"], c1["best"], rel)):
+        mech = None
+        if t in ("rename_str", "rename_reverse", "rename_nested", "reorder"):
+            # the image of a base key under the renaming is recovered from the two maps (same node order in both specs)
+            ren = {a[0]: b[0] for a, b in zip(wit["base"]["map"]["nodes"], wit["transformed"]["map"]["nodes"])} if t != "reorder" else {}
+            div = oracles.first_lattice_divergence(mt0, mt1, keymap=lambda key: [ren.get(x, x) if j < len(key) - 2 else x for j, x in enumerate(key)])
+            mech = oracles.order_dependence_mechanism(wit["base"]["cfg"], div)
+        if mech:
+            ctx.violation(f"C16:order-dependent:{mech}", wit, f"{t}: base idx {c0['idx']} best {c0['best']!r}; transformed idx {c1['idx']} best {c1['best']!r}")
+            return
         ctx.violation(f"C16:{t.rstrip('-0123456789')}:replayed-difference", wit, f"base idx {c0['idx']} best {c0['best']!r}; transformed idx {c1['idx']} best {c1['best']!r}")
 
+
+# no result depends on the log level: a tenth of the cases runs with the package logger at DEBUG (replayable: the flag is
+# part of the case / of the recorded witness)
+_dbg_gen, _dbg_chk = env.debug_dimension(0.1)
+gen_case = _dbg_gen(gen_case)
+check_case = _dbg_chk(check_case)
 
 TECHNIQUE = "runtime monitoring: metamorphic differential monitor over sibling executions (base case vs its image under exact relabelling / reordering / axis swap / 2^k scaling / translation)"
 LEVEL_TEXT = ("{Q} (quick) / {T} (thorough) base cases x up to 10 exact transformations; index and best probability of the transformed run must equal "
